@@ -421,7 +421,8 @@ def describe(run, trace, badl, clause):
 def execute(run):
     """run: {"case", "ops", "drain", "preload"} -> trace record (bodydrv.run_case)."""
     return bd.run_case(run["case"], [tuple(x) for x in run["ops"]], tuple(run["drain"]) if run.get("drain") else None,
-                       preload=bool(run.get("preload")), deadline=float(run.get("deadline") or 300.0))
+                       preload=bool(run.get("preload")),
+                       deadline=float(run.get("deadline") or os.environ.get("VERIF_CASE_DEADLINE") or 300.0))
 
 
 _JVM_GATE = None
